@@ -280,12 +280,14 @@ theorem predictExp_relabel_linear (s : LP α) (hlin : s.kind.isLinear = true) (m
   have hst : (s.relabel f finv).st = relabelDict f s.st := rfl
   have hget : ∀ a, (((relabelDict f s.st).get? (f a)).getD {}).beta = ((s.st.get? a).getD {}).beta ∧
       (((relabelDict f s.st).get? (f a)).getD {}).Ainv = ((s.st.get? a).getD {}).Ainv ∧
-      (((relabelDict f s.st).get? (f a)).getD {}).rngPriv = ((s.st.get? a).getD {}).rngPriv := by
-    intro a; rw [get?_relabelDict f finv hinv]; cases s.st.get? a <;> exact ⟨rfl, rfl, rfl⟩
+      (((relabelDict f s.st).get? (f a)).getD {}).rngPriv = ((s.st.get? a).getD {}).rngPriv ∧
+      (((relabelDict f s.st).get? (f a)).getD {}).mu = ((s.st.get? a).getD {}).mu ∧
+      (((relabelDict f s.st).get? (f a)).getD {}).sc = ((s.st.get? a).getD {}).sc := by
+    intro a; rw [get?_relabelDict f finv hinv]; cases s.st.get? a <;> exact ⟨rfl, rfl, rfl, rfl, rfl⟩
   unfold LP.predictExp
   rw [hk']
   cases hk : s.kind <;> simp [Kind.isLinear, hk] at hlin <;>
-    (simp only [hst, relabel_arms, List.length_map, List.foldl_map, (hget _).1, (hget _).2.1, (hget _).2.2,
+    (simp only [hst, relabel_arms, List.length_map, List.foldl_map, (hget _).1, (hget _).2.1, (hget _).2.2.1, (hget _).2.2.2.1, (hget _).2.2.2.2,
        assembleRows_relabel, unwrap_map_renameD])
 
 end Mab
